@@ -98,6 +98,31 @@ def check_byteflow(desc):
     return fails
 
 
+def check_handbuilt(desc):
+    from numba_scfg.rendering.rendering import SCFGRenderer
+    from vf.spaces import build_s4b
+    from vf.s1common import exc_signature, sig_of
+
+    g = build_s4b(desc)
+    # domain: a unique head from which iteration (forward arcs only) reaches every block
+    try:
+        if {n for n, _ in g} != set(g.graph):
+            return []
+    except AssertionError:
+        return []
+    try:
+        src = SCFGRenderer(g).render_scfg().source
+    except Exception as e:
+        return [{"kind": "render", "signature": "handbuilt:render-exception:" + exc_signature(e), "detail": repr(e)[:200]}]
+    out, seen = [], set()
+    for e in check_dot(g, src):
+        sg = "handbuilt:" + sig_of(e)
+        if sg not in seen:
+            seen.add(sg)
+            out.append({"kind": "render", "signature": sg, "detail": repr(e)[:300]})
+    return out
+
+
 def jobs(tier):
     import z3
     from vf.runner import Job
@@ -128,7 +153,20 @@ def jobs(tier):
         for f in check_byteflow(desc):
             ctx.fail(f["kind"], f["signature"], desc, f["detail"])
 
+    from vf.spaces import s4b_space, realise_s4b, build_s4b
+
+    def hb(E, ctx, aux):
+        desc = realise_s4b(E, aux)
+        ctx.current = desc
+        ctx.evaluations += 1
+        if any(b >= 0 for b in desc["backedge"]):
+            ctx.nontrivial += 1
+        for f in check_handbuilt(desc):
+            ctx.fail(f["kind"], f["signature"], desc, f["detail"])
+
     js = _jobs(tier)
+    js.append(Job("handbuilt-graphs-N3-with-declared-backedges", lambda: s4b_space(3), hb,
+                  bounds={"space": "S4b hand-built graphs with declared back edges", "blocks": 3, "slots": 2, "renderer": "SCFGRenderer"}, budget_s=600))
     js.append(Job("byteflow-renderer-hand-written", xspace, xh, bounds={"renderer": "ByteFlowRenderer", "functions": len(EXTRA_SOURCES), "stages": [0, 1, 2, 3]}, budget_s=300))
     js.append(Job("byteflow-renderer-compiled-S2-ctl", lambda: (None, [], None), ph, bounds={"renderer": "ByteFlowRenderer", "space": "compiled S2-ctl", "stages": [0, 1, 2, 3]},
                   budget_s=900, cubes_fn=lambda: s2.enum_prefixes(lambda ch: factory(ch).program(), 3)))
@@ -138,4 +176,6 @@ def jobs(tier):
 def replay(desc):
     if desc.get("kind") == "byteflow":
         return check_byteflow(desc)
+    if desc.get("kind") == "handbuilt":
+        return check_handbuilt(desc)
     return _replay(desc)
